@@ -1506,6 +1506,10 @@ def describe(case, obs):
             'observed': {k: obs[k] for k in ('exit', 'exception', 'procs', 'result', 'caps', 'source', 'report')}}
 
 
+def gen_tables(ctx):
+    common.source_tie('C10')  # small pure functions translated from the source and proved equal to the model (DESIGN 12.8)
+
+
 def run(ctx, res):
     n = 900 if ctx.quick else 12000
     codes = sorted({0, 1, 2, 126, 127, 128, 129, 254, 255} | {ctx.rng.below(256) for _ in range(24)}) if ctx.quick \
